@@ -215,3 +215,59 @@ extern "C" void vp_tok_str()
    vp_assert(pc.GetType() == (nb ? CT_STRING_MULTI : CT_STRING), "C03:wrong chunk type for a string literal");
    vp_witness("end");
 }
+
+/* TOK-NUM: parse_number (C02 lossless / C06 no over-read) */
+extern "C" void vp_tok_num()
+{
+   vp_tok_setup();
+   vp_assume((g_data[0] >= '0' && g_data[0] <= '9') || g_data[0] == '.');
+   TokenContext ctx(g_data);
+   Chunk        pc;
+   bool         ok  = parse_number(ctx, pc);
+   size_t       idx = ctx.c.idx;
+   vp_assert(idx <= N, "C06:tokenizer position beyond the end of the input");
+   if (!ok)
+   {
+      vp_assert(idx == 0, "C06:failed parse did not restore the position");
+      vp_witness("opt:num-false");
+      return;
+   }
+   vp_assert(idx > 0, "C06:successful parse made no progress");
+   bool same = (pc.GetStr().size() == idx);
+   for (size_t i = 0; i < idx && i < N; i++) { if (pc.GetStr()[i] != g_data[i]) { same = false; } }
+   vp_assert(same, "C02:number chunk differs from the characters consumed");
+   vp_witness("end");
+}
+
+/* TOK-CMT: parse_comment (C03: comments keep their complete text, continuation lines included) */
+extern "C" void vp_tok_cmt()
+{
+   vp_tok_setup();
+   vp_assume(g_data[0] == '/');
+   TokenContext ctx(g_data);
+   Chunk        pc;
+   bool         ok  = parse_comment(ctx, pc);
+   size_t       idx = ctx.c.idx;
+   vp_assert(idx <= N, "C06:tokenizer position beyond the end of the input");
+   if (!ok)
+   {
+      vp_assert(idx == 0, "C06:failed parse did not restore the position");
+      vp_witness("opt:cmt-false");
+      return;
+   }
+   vp_assert(idx >= 2, "C06:a comment shorter than its opener");
+   bool same = (pc.GetStr().size() == idx);
+   for (size_t i = 0; i < idx && i < N; i++) { if (pc.GetStr()[i] != g_data[i]) { same = false; } }
+   vp_assert(same, "C03:comment chunk differs from the characters consumed");
+   vp_assert(pc.Is(CT_COMMENT_CPP) || pc.Is(CT_COMMENT) || pc.Is(CT_COMMENT_MULTI), "C03:wrong chunk type for a comment");
+   if (!pc.Is(CT_COMMENT_CPP))
+   {
+      size_t lf, crlf, cr;
+      size_t nb = ref_breaks(idx, &lf, &crlf, &cr);
+      vp_assert(pc.GetNlCount() == nb, "C08:line breaks inside a block comment miscounted (LF, CR LF, CR each count once)");
+      vp_assert(pc.Is(CT_COMMENT_MULTI) == (nb > 0), "C03:block comment kind does not reflect whether it spans lines");
+      vp_assert(cpd.le_counts[0] == lf && cpd.le_counts[1] == crlf && cpd.le_counts[2] == cr, "C08:terminator census does not match the terminators inside the comment");
+   }
+   vp_assert(!cpd.unc_off, "C07:processing switched off by a comment that cannot contain the disable marker");
+   vp_witness("end");
+}
